@@ -101,6 +101,17 @@ Vectors ==
     \* structural perturbations
   \cup {V(t, sc, "default", d, 0, "", {}) : t \in Tools, sc \in Subcommands, d \in Structural}
 
+\* Command lines that parse but are refused while the formula is built or transformed: the output
+\* format is established by then, so the error must carry the marker of THAT format, whether the
+\* format was asked for with an option or implied by the extension of the output file.
+BuildRefusals == { <<"randkcnf", "3", "2", "1">>, <<"cpls", "2", "3", "2">>, <<"ec", "grid", "2", "3">>,
+                   <<"tseitin", "5", "3">>, <<"stone", "2", "pyramid", "1", "--sparse", "3">>,
+                   <<"randkxor", "4", "3", "1">>, <<"or", "2", "1", "-T", "xorcomp", "2", "3">> }
+FormatSelections == {"option_dimacs", "option_opb", "option_latex", "extension_cnf", "extension_opb", "extension_tex", "default"}
+RefusalVectors ==
+    {[tool |-> t, name |-> "", valid |-> a, kinds |-> <<>>, fmt |-> f, dev |-> "build_refusal", pos |-> 0, cls |-> "",
+      opts |-> {}] : t \in Tools, a \in BuildRefusals, f \in FormatSelections}
+
 \* the two single-purpose tools: no sub-command, an input file option
 OtherTools == { [tool |-> "cnfshuffle", sc |-> Sub("", <<"word", "file">>, <<"-i", "@cnf">>,
                                                   {"-p", "-v", "-c", "-q", "--no-polarity-flips"})],
@@ -113,11 +124,15 @@ OtherVectors ==
                  x \in OtherTools}
   \cup {V(x.tool, x.sc, "default", d, 0, "", {}) : x \in OtherTools,
             d \in {"missing_last", "extra_argument", "unknown_option", "help", "seed_word", "output_to_directory"}}
-AllVectors == Vectors \cup OtherVectors
+AllVectors == Vectors \cup OtherVectors \cup RefusalVectors
 
 \* dimacs output cannot be asked of pbgen, and transformations are cnfgen's
 Expect(v) ==
-    IF v.dev \in {"help", "sub_help"} THEN "help"
+    IF v.dev = "build_refusal" THEN
+         \* pbgen refuses '-T' and '--output-format dimacs' while parsing: the format is not established yet
+         (IF v.tool = "pbgen" /\ (v.fmt = "option_dimacs" \/ \E k \in 1..Len(v.valid) : v.valid[k] = "-T")
+          THEN "any" ELSE "any_strict_marker")
+    ELSE IF v.dev \in {"help", "sub_help"} THEN "help"
     ELSE IF v.dev = "none" /\ ~(v.tool = "pbgen" /\ v.fmt = "dimacs") /\ ~(v.tool = "pbgen" /\ v.name = "dimacs")
          THEN "must_succeed"
     ELSE "any"
